@@ -81,7 +81,7 @@ def scriptHoist (as : Attrs) : Frags :=
 /-- writeExpressionAttribute's choice of value writer; `css` says whether class attributes were hoisted (elements only). -/
 def attrValue (css : Bool) (el name e : Bytes) : Frag :=
   if css && Html.escape name == Generated.cssAttrName then .classValue e
-  else if (el == aName && name == hrefName) || (el == formName && name == actionName) then .escaped e
+  else if (eqFold el aName && eqFold name hrefName) || (eqFold el formName && eqFold name actionName) then .escaped e
   else if isScriptAttr name then .scriptCall e
   else .escaped e          -- style (sanitised) and every other attribute (JoinStringErrs): escaped all the same
 
